@@ -47,6 +47,9 @@ ORDER_OK = {
     (RTRAIT + "append_columns_with_borders", "pop"): "removes a trailing border line of a nested table (guarded by `if let Some(Line)`)",
     ("insert_child", "insert"): "inserts the marker / generated content at index 0 (ChildPosition::Start)",
     ("tree_map_reduce::{closure}", "pop"): "returns the single result of the root",
+    ("css::parser::parse_selector", "reverse"): "selectors are stored innermost-first: one reverse of the whole component list after parsing",
+    ("css::parser::parse_selector", "pop"): "drops a trailing descendant combinator (guarded by `last() == Some(CombDescendant)`)",
+    ("<css::Selector as std::fmt::Display>::fmt", "rev"): "prints the components back in written order (display only; not used by matching)",
     ("tree_map_reduce", "pop"): "the walk's own stack of unfinished parents (LIFO is the traversal: the innermost parent receives the finished child)",
     ("<markup5ever_rcdom::Node as std::ops::Drop>::drop", "pop"): "iterative destruction of a subtree (no rendering involved)",
     ("markup5ever_rcdom::remove_from_parent", "remove"): "upstream TreeSink: removes the node at the index get_parent_and_index found (enumerate().find by pointer identity)",
@@ -674,7 +677,7 @@ def rule_g(ctx, only=None, rid="C03-G"):
                 ctx.ok(rid, key, t["span"], b.id, why, how="table")
             else:
                 ctx.violation(rid, key, t["span"], b.id,
-                              "%s on a sequence of %s: document order may be perturbed" % (m, tys.split("<")[-1][:40]))
+                              "%s on a sequence of %s: %s order may be perturbed" % (m, tys.split("<")[-1][:40], "selector" if "SelectorComponent" in tys else "document"))
     ctx.floor(rid, "order-sensitive operations on tracked sequences (all sanctioned)", n, 5 if only is None else 2)
     if F.bodies.get("css::parser::parse_selector"):
         ctx.check(control >= 1, rid, "positive-control:css-parser-reverse-found", "", "",
